@@ -1,7 +1,8 @@
-import VermouthModel.C13_Reader
-import Std.Data.String.ToNat
-#print String.isNat
-#check @Nat.isNat_repr
-#check @Nat.toNat?_repr
-#print C13.allDigits
-#eval C13.hdrName "x"
+import VermouthModel.C02
+open C02
+example (w : Nat) (a : Nat) (rest : List Nat) (params : List String) (cm : Option String)
+    (t : String) (h : t ∈ lineTokens (.inter w true (a :: rest) params cm)) :
+    t ∈ (a :: rest).map (fun (i : Nat) => toString i) ∨ t ∈ params := by
+  simp [lineTokens] at h ⊢
+  trace_state
+  sorry
